@@ -267,6 +267,17 @@ func instant(v reflect.Value) (sec int64, nsec int64) {
 
 // equalish is deep equality with nil == empty for slices and maps and
 // instant equality for times.
+// jsonView, while set, makes equalish ignore what encoding/json does not
+// carry: fields tagged json:"-" and unexported fields (the round trip cannot
+// bring them back, C02 compares the serialised part).
+var jsonView bool
+
+func equalJSON(a, b reflect.Value) bool {
+	jsonView = true
+	defer func() { jsonView = false }()
+	return equalish(a, b)
+}
+
 func equalish(a, b reflect.Value) bool {
 	if a.Type() != b.Type() {
 		return false
@@ -280,6 +291,9 @@ func equalish(a, b reflect.Value) bool {
 			return sa == sb && na == nb
 		}
 		for i := 0; i < t.NumField(); i++ {
+			if jsonView && (!t.Field(i).IsExported() || t.Field(i).Tag.Get("json") == "-") {
+				continue
+			}
 			if !equalish(a.Field(i), b.Field(i)) {
 				return false
 			}
@@ -448,7 +462,7 @@ func Child(p *Program, seed0 int64, k int, only string) {
 					report("json_round_trip", "unmarshal: "+err.Error()+" document "+clip(string(b)))
 					continue
 				}
-				if !equalish(holder, reflect.ValueOf(back).Elem()) {
+				if !equalJSON(holder, reflect.ValueOf(back).Elem()) {
 					report("json_round_trip", "value differs after the round trip; document "+clip(string(b)))
 					continue
 				}
